@@ -82,6 +82,7 @@ def run(ctx: Ctx, rep: Report) -> None:
     circuit_edit.oor(ctx, rep)
     circuit_edit.normpoint(ctx, rep)
     circuit_edit.imul(ctx, rep)
+    circuit_edit.batchshift(ctx, rep)
     # by-value editing (remove, point, count) rests on Operation equality
     from ..rules.taut import rule_taut
     rule_taut(ctx, rep, ('bqskit/ir/',), 300)
@@ -193,6 +194,22 @@ def classify_batch(ctx, f, g, rd, loop, body, nd, c):
                 return 'same-cycle', (
                     f'all positions lie in cycle `{norm(cyc)}`'
                 )
+    # (2b) ascending by construction: a filtered copy of range(a, b), walked
+    # through reversed(): latest cycle first
+    if srt is None and base_defs:
+        v = base_defs[-1].value
+        if (
+            isinstance(v, ast.ListComp) and len(v.generators) == 1
+            and isinstance(v.generators[0].iter, ast.Call)
+            and norm(v.generators[0].iter.func) == 'range'
+            and len(v.generators[0].iter.args) <= 2
+            and norm(v.elt) == norm(v.generators[0].target)
+            and direction == 'reversed'
+            and norm(pos) == norm(loop.stmt.target)
+        ):
+            return 'descending', (
+                'a filtered range walked backwards: latest cycle first'
+            )
     if srt is None:
         return None, (
             'the positions are not visited in sorted order '
